@@ -159,7 +159,7 @@ def family_explicit(mods, conv, idx, maxnodes):
     out = []
     for n in range(maxnodes + 1):
         for tup in itertools.product(range(3), repeat=n):
-            out.append({"kind": "match", "tmpl": texpr, "source": repr(list(tup)), "node": [1, "elts"]})
+            out.append({"kind": "match", "tmpl": texpr, "source": repr(list(tup)), "node": [2, "elts"]})
     return out
 
 
@@ -257,15 +257,15 @@ def cases_nested(tier, rnd):
     small_s = list(nest_sources(2, 1))
     for hand, comp in small_t:
         for s in small_s:
-            out.append({"kind": "match", "tmpl": hand, "source": s, "node": 1})
-            out.append({"kind": "match", "tmpl": comp, "source": s, "node": 1})
+            out.append({"kind": "match", "tmpl": hand, "source": s, "node": 2})
+            out.append({"kind": "match", "tmpl": comp, "source": s, "node": 2})
     n_small = len(out)
     big_t = list(nest_templates(NEST_INNER, NEST_OUTER, 2, 2))
     big_s = list(nest_sources(3, 2))
     n = 2500 if tier == "quick" else 40000
     for _ in range(n):
         hand, comp = rnd.choice(big_t)
-        out.append({"kind": "match", "tmpl": rnd.choice((hand, comp)), "source": rnd.choice(big_s), "node": 1})
+        out.append({"kind": "match", "tmpl": rnd.choice((hand, comp)), "source": rnd.choice(big_s), "node": 2})
     return out, n_small
 
 
